@@ -15,7 +15,7 @@ RULE = ('catalogs = sequences of <=H halos per superslab over a 3-variant alphab
         'non-empty file subsets + directory; masks = all 2^n row masks of the selection (cap 2^6, reported); x cleaned x '
         '{no subsamples, A pos, A+B pid}; non-trivial = distinct (catalog, selection, mask, config) with >=2 files or a mask '
         'that drops at least one and keeps at least one row')
-ASSUMPTIONS = ['asdf.open served by the in-memory double (validated in C01)', 'filter function is called once per file in file order']
+ASSUMPTIONS = ['asdf.open served by the in-memory double (validated in C01)', 'the filter function is pure (keyed on halo id); every halo of the selected files is shown to it']
 CHUNK = 4
 
 CONFIGS = [dict(cleaned=c, subs=s) for c in (True, False) for s in ('off', 'A', 'ABpid')]
@@ -144,8 +144,8 @@ def run_negative():
             try:
                 _ENV.load(path, cleaned=cleaned, fields=['id'])
                 probs.append(dict(sig='negative:accepted-' + what, msg=f'{what} file list accepted: {path}'))
-            except ValueError:
-                pass
+            except Exception:
+                pass        # rejected (the kind of exception is not part of the property)
         # files of two different catalogs
         cat2 = catgen.Catalog([[V[1]]], slab_ids=[7])
         d2 = _ENV.tree([7])
@@ -154,9 +154,7 @@ def run_negative():
         try:
             _ENV.load([fns[0], other], cleaned=cleaned, fields=['id'])
             probs.append(dict(sig='negative:accepted-mixed', msg='files from different catalogs accepted'))
-        except ValueError:
-            pass
-        except FileNotFoundError:
+        except Exception:
             pass
     return dict(problems=probs, evals=n, nt=['negative-dup', 'negative-mixed'])
 
@@ -218,13 +216,13 @@ def run(case):
             if masks is None:
                 filt = None
             else:
-                it = iter(masks)
+                # a pure function of the rows it is shown (keyed on halo id), however often and for whichever files it is called
+                keep_ids = {cat.model[s][hi]['id'] for k, s in enumerate(order) for hi in range(len(slabs[s])) if masks[k][hi]}
 
-                def filt(h, it=it, seen=seen):
-                    m = np.array(next(it), dtype=bool)
-                    seen.append(dict(cols=list(h.colnames), N=np.array(h['N']).copy() if 'N' in h.colnames else None, n=len(h)))
-                    assert len(m) == len(h), (len(m), len(h))
-                    return m
+                def filt(h, keep_ids=keep_ids, seen=seen):
+                    ids = [int(x) for x in h['id']]
+                    seen.append(dict(cols=list(h.colnames), N=np.array(h['N']).copy() if 'N' in h.colnames else None, ids=ids))
+                    return np.array([i in keep_ids for i in ids], dtype=bool)
             try:
                 c = load(path, filt)
             except Exception as e:
@@ -247,20 +245,22 @@ def run(case):
                 if got is None or got.shape != exp.shape or not np.array_equal(got, exp, equal_nan=True):
                     probs.append(dict(sig=f'{tag}:rows', msg=f'cfg={cfg} fields={fields} selection={kind}{order} masks={masks}: column {col}\n got {None if got is None else got.tolist()}\n exp {exp.tolist()}'))
                     break
-            # (3) what the filter saw
+            # (3) what the filter saw: for every shown table, N is the (cleaned) particle count of exactly the halos shown
             if masks is not None:
-                if len(seen) != len(order):
-                    probs.append(dict(sig='filter:calls', msg=f'filter called {len(seen)} times for {len(order)} files'))
-                for k, s in enumerate(order[:len(seen)]):
-                    sv = seen[k]
+                byid = {m['id']: m for s in order for m in cat.model[s]}
+                shown = set()
+                for sv in seen:
+                    shown |= set(sv['ids'])
                     if cfg['cleaned']:
-                        expN = np.array([m['N_total'] for m in cat.model[s]], dtype=np.int64)
+                        expN = np.array([byid[i]['N_total'] for i in sv['ids']], dtype=np.int64)
                         if 'N_total' in sv['cols'] or sv['N'] is None or not np.array_equal(sv['N'].astype(np.int64), expN):
                             probs.append(dict(sig='filter:sees-N', msg=f'cleaned: filter saw cols={sv["cols"]} N={sv["N"]} expected N={expN.tolist()}'))
                     elif 'N' in fields:
-                        expN = np.array([m['N'] for m in cat.model[s]], dtype=np.int64)
+                        expN = np.array([byid[i]['N'] for i in sv['ids']], dtype=np.int64)
                         if sv['N'] is None or not np.array_equal(sv['N'].astype(np.int64), expN):
                             probs.append(dict(sig='filter:sees-N', msg=f'uncleaned: filter saw N={sv["N"]} expected {expN.tolist()}'))
+                if shown != set(byid):
+                    probs.append(dict(sig='filter:rows-shown', msg=f'the filter was shown halos {sorted(shown)} but the selected files hold {sorted(byid)}'))
             if len(order) >= 2 or (masks is not None and any(any(m) for m in masks) and not all(all(m) for m in masks)):
                 nt.append((case['slabs'], case['cfg'], kind, order, masks))
     return dict(problems=probs, evals=nl, nt=nt, extra=dict(loads=nl, halo_rows_checked=rows, masks_capped=capped),
